@@ -550,7 +550,7 @@ class RaggedArray(IndexableArray, np.lib.mixins.NDArrayOperatorsMixin):
 
     def _row_accumulate(self, operator, dtype=None):
         if self.size == 0:
-            return self.__class__(self.ravel().copy(), self._shape)
+            return self.__class__(operator.accumulate(self.ravel(), dtype=dtype), self._shape)
         if np.issubdtype(self.dtype, np.inexact):
             # the offset trick below is only exact for integers; accumulate floats row by row
             padded = operator.accumulate(self._as_padded_matrix(), axis=1, dtype=dtype)
